@@ -149,9 +149,6 @@ def build(run):
     ksrc = Source(run.repo, TOKEN)
     unit = KaniUnit('C24', run.scratch)
     unit.raw(PRELUDE)
-    # the std imports of the file are carried over (a harmless edit that starts using e.g. `cmp::max` must not make the unit undecided)
-    std_uses = sorted(set(re.findall(r'(?m)^use (?:std|core)::[^;]+;', src.text)))
-    unit.raw(''.join("#[allow(unused_imports)] %s\n" % u for u in std_uses if 'TryFrom' not in u and 'fmt' not in u and 'io' not in u))
     loc = Snippet(src.item('enum', 'Location'), 'enum Location')
     rules.erase_enum_payloads(loc, {'u32'}, derives='#[derive(Debug, Clone, Copy, PartialEq, Eq)]\n')
     unit.add(loc)
